@@ -28,7 +28,7 @@ SEND_RATE == 250
 GBASE == 536870912      \* the harness maps the global sequence 2^63 + k to 2^29 + k
 REQLEN == 1078
 
-SeqBytes(s) == IF s >= GBASE THEN 8 ELSE IF s = 0 THEN 0 ELSE IF s < 256 THEN 1 ELSE IF s < 65536 THEN 2 ELSE IF s < 16777216 THEN 3 ELSE 4
+SeqBytes(s) == IF s >= GBASE THEN 8 ELSE IF s < 256 THEN 1 ELSE IF s < 65536 THEN 2 ELSE IF s < 16777216 THEN 3 ELSE 4
 DLen(kind, seq, plen) ==
     CASE kind = "Request" -> REQLEN
       [] kind \in {"Challenge", "Response"} -> 1 + SeqBytes(seq) + 8 + 300 + 16
